@@ -79,6 +79,9 @@ type RestAgent struct {
 	// map UUIDs to EIDs and received bundles
 	clients sync.Map // uuid[string] -> bpv7.EndpointID
 	mailbox sync.Map // uuid[string] -> []bpv7.Bundle
+
+	// mailboxMutex makes the load-modify-store sequences on a mailbox atomic: delivery appends, fetch empties.
+	mailboxMutex sync.Mutex
 }
 
 // NewRestAgent creates a new RESTful Application Agent.
@@ -130,6 +133,8 @@ func (ra *RestAgent) receiveBundleMessage(msg BundleMessage) {
 	})
 
 	for _, uuid := range uuids {
+		ra.mailboxMutex.Lock()
+
 		var bundles []bpv7.Bundle
 		if val, ok := ra.mailbox.Load(uuid); !ok {
 			bundles = []bpv7.Bundle{msg.Bundle}
@@ -138,6 +143,8 @@ func (ra *RestAgent) receiveBundleMessage(msg BundleMessage) {
 		}
 
 		ra.mailbox.Store(uuid, bundles)
+
+		ra.mailboxMutex.Unlock()
 
 		log.WithFields(log.Fields{
 			"bundle": msg.Bundle.ID().String(),
@@ -212,6 +219,10 @@ func (ra *RestAgent) handleFetch(w http.ResponseWriter, r *http.Request) {
 		fetchRequest  RestFetchRequest
 		fetchResponse RestFetchResponse
 	)
+
+	// A bundle delivered between reading and clearing the mailbox would be lost, or returned twice.
+	ra.mailboxMutex.Lock()
+	defer ra.mailboxMutex.Unlock()
 
 	if jsonErr := json.NewDecoder(r.Body).Decode(&fetchRequest); jsonErr != nil {
 		log.WithError(jsonErr).Warn("Failed to parse REST fetch request")
